@@ -84,6 +84,7 @@ type State struct {
 	pcH1, pcH2 uint64
 	badSigs    []*Term
 	decs       []decRec
+	bigs       map[int]*Term
 }
 
 type decRec struct {
@@ -134,6 +135,12 @@ func (st *State) clone() *State {
 	n.sigs = append([]sigReg(nil), st.sigs...)
 	n.badSigs = append([]*Term(nil), st.badSigs...)
 	n.decs = append([]decRec(nil), st.decs...)
+	if st.bigs != nil {
+		n.bigs = make(map[int]*Term, len(st.bigs))
+		for k, v := range st.bigs {
+			n.bigs[k] = v
+		}
+	}
 	n.status = st.status
 	n.steps = st.steps
 	n.pcH1, n.pcH2 = st.pcH1, st.pcH2
